@@ -206,6 +206,8 @@ class Fresh:
                     vals = self._assignments(fn, n.target.id)
                     if vals and all(isinstance(v, ast.Constant) or self._is_immutable_expr(v) for v in vals):
                         continue  # int / str accumulators re-bind, they do not mutate
+                    if self._is_number_expr(n.value):
+                        continue  # `x += len(...)` / `x += 1`: only a number accepts a number - rebinding, never in-place
             elif isinstance(n, (ast.Assign, ast.AnnAssign)):
                 tg = n.targets if isinstance(n, ast.Assign) else [n.target]
                 for t in tg:
@@ -229,6 +231,22 @@ class Fresh:
             return Fresh._is_immutable_expr(v.left) or Fresh._is_immutable_expr(v.right)
         if isinstance(v, ast.Call) and isinstance(v.func, ast.Name) and v.func.id in ("int", "str", "len", "bool", "float", "min", "max", "sum"):
             return True
+        if isinstance(v, ast.Call) and isinstance(v.func, ast.Attribute) and v.func.attr in (
+                "find", "index", "rfind", "rindex", "count", "start", "end", "strip", "lstrip", "rstrip", "replace", "join", "format", "lower",
+                "upper", "removeprefix", "removesuffix", "decode", "as_posix", "hexdigest", "render", "group"):
+            return True   # str / int results of str, bytes, re.Match and Path methods
+        return False
+
+    @staticmethod
+    def _is_number_expr(v: ast.AST) -> bool:
+        if isinstance(v, ast.Constant):
+            return isinstance(v.value, (int, float)) and not isinstance(v.value, bool)
+        if isinstance(v, ast.Call) and isinstance(v.func, ast.Name) and v.func.id in ("len", "int", "float", "abs", "round"):
+            return True
+        if isinstance(v, ast.BinOp) and isinstance(v.op, (ast.Add, ast.Sub, ast.Mult, ast.FloorDiv, ast.Mod)):
+            return Fresh._is_number_expr(v.left) and Fresh._is_number_expr(v.right)
+        if isinstance(v, ast.UnaryOp) and isinstance(v.op, (ast.USub, ast.UAdd)):
+            return Fresh._is_number_expr(v.operand)
         return False
 
     def _recv_fresh(self, recv: ast.AST, fn, q: str) -> bool:
